@@ -469,12 +469,17 @@ def gen_borehole_config(
     # Determines the number of rows as well as the distance between the rows
     num_rows = int((highest_vert_val - lowest_vert_val) // y_space)
     d = highest_vert_val - lowest_vert_val
-    s = d / num_rows
+    # a lot narrower than one row spacing holds a single row, through its middle
+    single_row = num_rows < 1
+    s = d / 2.0 if single_row else d / num_rows
     row_space = [-1 * s * cos(PI_OVER_2 - rotate), s * sin(PI_OVER_2 - rotate)]
 
     # Establishes the dictionary where the boreholes will be added two as well as establishing a point on the first row
     boreholes = {}
     row_point = [lowest_vert[0], lowest_vert[1]]
+    if single_row:
+        num_rows = 0
+        row_point = [lowest_vert[0] + row_space[0], lowest_vert[1] + row_space[1]]
 
     # This is just a value that is combined with the slope of the row's to establish two points defining a row (could
     # be any value)
